@@ -39,6 +39,13 @@ def unwrap(x):
     return x
 
 
+def op_args(op):
+    """fresh argument objects for every use"""
+    if 'args_src' in op:
+        return [eval(src, {'__builtins__': __builtins__}) for src in op['args_src']]
+    return copy.deepcopy(list(op.get('args', ())))
+
+
 def feedback_record(fb):
     rec = {'cls': type(fb).__name__, 'mro': [c.__name__ for c in type(fb).__mro__]}
     for attr in ('category', 'label', 'title', 'kind', 'priority', 'muted', '_status'):
@@ -164,20 +171,28 @@ class SbxRun:
             else:
                 raise world.HarnessError('unknown op %r' % (kind,))
             o.update(self.io_state())
+            if self.ref is not None:
+                o['ref_queue'] = list(self.ref.queue)
             return o
 
         fault = op.get('fault')
         inputs = op.get('inputs')
         # ---- reference first (same inputs, same fault)
         refres = None
-        if self.ref is not None and not op.get('noref'):
+        use_ref = self.ref is not None and not op.get('noref')
+        if use_ref and kind == 'call' and not callable(self.ref.ns.get(op['fn'])):
+            # pedal's call() returns early (nothing is executed, inputs are not queued) when the
+            # function does not exist -- e.g. an earlier run crashed before defining it
+            use_ref = False
+            o['skipped'] = 'no-such-function'
+        if use_ref:
             if inputs is not None:
                 self.ref.set_inputs(inputs if isinstance(inputs, (list, tuple)) else [inputs])
             rfault = fault if (fault and fault.get('kind') == 'sync_student' and not op.get('nomirror')) else None
             if kind == 'run':
                 refres = self.ref.run(op.get('code'), op.get('filename'), fault=rfault)
             elif kind == 'call':
-                refres = self.ref.call(op['fn'], tuple(copy.deepcopy(op.get('args', ()))), copy.deepcopy(dict(op.get('kwargs', {}))), fault=rfault)
+                refres = self.ref.call(op['fn'], tuple(op_args(op)), copy.deepcopy(dict(op.get('kwargs', {}))), fault=rfault)
             else:
                 refres = self.ref.evaluate(op['expr'], fault=rfault)
             rv = refres.pop('value')
@@ -208,7 +223,7 @@ class SbxRun:
                     ret = C.run(code=op.get('code'), filename=op.get('filename'), inputs=inputs,
                                 threaded=op.get('threaded'))
                 elif kind == 'call':
-                    ret = C.call(op['fn'], *copy.deepcopy(op.get('args', ())), inputs=inputs, threaded=op.get('threaded'),
+                    ret = C.call(op['fn'], *op_args(op), inputs=inputs, threaded=op.get('threaded'),
                                  target=op.get('target', '_'), **copy.deepcopy(op.get('kwargs', {})))
                 else:
                     ret = C.evaluate(op['expr'], threaded=op.get('threaded'))
@@ -236,6 +251,8 @@ class SbxRun:
         o['raw_delta'] = sb.raw_output[len(raw_before):] if sb.raw_output.startswith(raw_before) else None
         o['out_delta'] = sb.output[len(out_before):] if sb.output[:len(out_before)] == out_before else None
         o.update(self.io_state())
+        if self.ref is not None:
+            o['ref_queue'] = list(self.ref.queue)
         o['console_delta'] = self.console[0].getvalue()[len(console_before):]
         if kind == 'run':
             o['returned_self'] = ret is sb
